@@ -30,6 +30,8 @@ SC = {
     "pagelinks+batch": [["pagelinksq", 0], ["batch", {"3": [1, 4]}]],
     "child+rule": [["childq", 0], ["rule", [0, 3, "path1"]]],
     "outlinks+net": [["outlinksq", 0], ["netq"]],
+    "outlinks+rule": [["outlinksq", 0], ["rule", [0, 3, "path1"]]],
+    "pagelinks+rule": [["pagelinksq", 1], ["rule", [0, 3, "path1"]]],
 }
 PRELUDE2 = [["links", [[1, 3], [1, 2], [3, 1], [3, 4]]], ["we", [[0, 3]]], ["we", [[3, 3]]]]
 PRELUDE = [["page", 0, False], ["page", 1, True], ["links", [[1, 0]]], ["we", [[0, 3]]]]
@@ -39,12 +41,13 @@ def levels(tier):
     if tier == "quick":
         return [
             {"name": "pairs", "scenarios": ["two-batches", "batch+pages", "batch+net", "rule+batch", "rule+pages"], "prelude": PRELUDE},
-            {"name": "link-queries", "scenarios": ["two-outlinks", "out+in", "pagelinks+out", "pagelinks+batch"], "prelude": PRELUDE2},
+            {"name": "link-queries", "scenarios": ["two-outlinks", "out+in", "pagelinks+out", "pagelinks+batch", "outlinks+rule"], "prelude": PRELUDE2, "final_battery": True},
         ]
     return [
         {"name": "pairs", "scenarios": ["two-batches", "batch-shared-target", "batch+pages", "batch+net", "rule+batch", "rule+pages"], "prelude": PRELUDE},
         {"name": "triples", "scenarios": ["three", "three-b"], "prelude": PRELUDE},
-        {"name": "link-queries", "scenarios": ["two-outlinks", "out+in", "pagelinks+out", "pagelinks+batch", "child+rule", "outlinks+net"], "prelude": PRELUDE2},
+        {"name": "link-queries", "scenarios": ["two-outlinks", "out+in", "pagelinks+out", "pagelinks+batch", "child+rule", "outlinks+net", "outlinks+rule",
+                                                 "pagelinks+rule"], "prelude": PRELUDE2, "final_battery": True},
     ]
 
 
@@ -220,5 +223,21 @@ def harness(E):
                 hi = max(s.get(k, 0) for s in g["snaps"])
                 E.check(ans.get(k, 0) >= lo, "schedule:query-lower", "network weight %s=%r below its minimum %d over the query's lifetime" % (k, ans.get(k, 0), lo))
                 E.check(ans.get(k, 0) <= hi, "schedule:query-upper", "network weight %s=%r above its maximum %d over the query's lifetime" % (k, ans.get(k, 0), hi))
+    # afterwards (nothing running any more) queries must see the final state: nothing cached during the schedule may survive
+    for g in gens:
+        if g["kind"] == "rule" and g["result"] is not None:
+            li, k, rn = g["spec"][1]
+            a = pool[li].prefix(k)
+            ref.name(a)
+            ref.rules.set(a.lru, rn)
+            ref.created = []
+            h.install_model(a, g["result"])
+    if P.get("final_battery") and not ("rule" in kinds and "batch" in kinds):
+        # (with a rule installation and a crawl batch in flight together, which webentity ids the batch's pages get
+        # depends on the schedule; the final-state model below does not follow that, so those scenarios stop at the checks above)
+        from harness.C08 import battery as c08_battery
+        from harness.C07 import battery as c07_battery
+        c08_battery(E, t, h)
+        c07_battery(E, t, h)
     E.observe("order", order)
     E.observe("pages", [[r[0], bool(r[1])] for r in res])
